@@ -1059,6 +1059,20 @@ func (g *Gen) useStmt() ast.Vertex {
 // Program draws a whole file.
 func (g *Gen) Program(minStmts, maxStmts int) *ast.Root {
 	root := &ast.Root{EndTkn: &token.Token{}}
+	if g.chance(1, 10, "chainprogram") {
+		// a program of member / dimension / call chains only: the variable grammar (in particular
+		// PHP 5's, which assembles chains from link lists with special cases per link position)
+		// needs long chains, which ordinary expressions rarely contain
+		g.feat("chain-program")
+		for i, k := 0, g.rng(1, 3, "nchains"); i < k; i++ {
+			var e ast.Vertex = g.Variable(6, false)
+			if g.chance(1, 4, "chainassign") {
+				e = &ast.ExprAssign{Var: g.Variable(5, true), EqualTkn: g.ch('='), Expr: e}
+			}
+			root.Stmts = append(root.Stmts, &ast.StmtExpression{Expr: e, SemiColonTkn: g.ch(';')})
+		}
+		return root
+	}
 	switch g.intn(6, "nsmode") {
 	case 0:
 		// semicolon-style namespaces
